@@ -141,7 +141,10 @@ def run(F, rep, tier):
         m = find_match(F, fw, r'core::FmtBase', min_arms=5)
         want = {'Decimal': 'new_display', 'Binary': 'new_binary', 'Octal': 'new_octal', 'LowerHex': 'new_lower_hex', 'UpperHex': 'new_upper_hex'}
         for i, a in enumerate(m['arms']):
-            v = pat_paths(a['pat'])[0].rsplit('::', 1)[-1]
+            vps = [p_ for p_ in pat_paths(a['pat']) if 'FmtBase' in p_]
+            if not vps:
+                continue            # an arm that does not select a base (e.g. the repr flag of a tuple match)
+            v = vps[0].rsplit('::', 1)[-1]
             regn = arm_region(F, b, m, i)
             ctor = sorted({c.target.rsplit('::', 1)[-1] for c in b.calls_in(regn) if 'Argument' in c.target and c.target.rsplit('::', 1)[-1].startswith('new_')})
             if ctor == [want.get(v)]:
